@@ -329,6 +329,26 @@ impl LightClientProtocol {
         self.peers().update_prove_state(peer_index, new_prove_state)
     }
 
+    /// Removes the matched blocks and the filtered data after the fork block.
+    fn rollback_to_fork_number(&self, to_number: BlockNumber) {
+        debug!("fork to number: {}", to_number);
+        let mut matched_blocks = self.peers.matched_blocks().write().expect("poisoned");
+        let mut start_number_opt = None;
+        while let Some((start_number, _, _)) = self.storage.get_latest_matched_blocks() {
+            if start_number > to_number {
+                debug!("remove matched blocks start from: {}", start_number);
+                self.storage.remove_matched_blocks(start_number);
+            } else {
+                start_number_opt = Some(start_number);
+                break;
+            }
+        }
+        let rollback_to = start_number_opt.unwrap_or(to_number) + 1;
+        info!("rollback to block#{}", rollback_to);
+        self.storage.rollback_to_block(rollback_to);
+        matched_blocks.clear();
+    }
+
     /// Update the prove state base on the previous request.
     /// - Update the peer's cache.
     /// - Try to update the storage and handle potential fork.
@@ -343,6 +363,16 @@ impl LightClientProtocol {
             let reorg_last_headers = new_prove_state.get_reorg_last_headers();
             if reorg_last_headers.is_empty() {
                 let prev_last_header_number: BlockNumber = prev_last_header.raw().number().unpack();
+                let prev_last_header_hash = prev_last_header.calc_header_hash();
+                let new_last_headers = new_prove_state.get_last_headers();
+                // If only a few blocks are unknown, the request starts from a remembered header
+                // before the previous last header, then the server couldn't know whether the
+                // previous last header is on its chain and it doesn't return any reorg headers.
+                // So check if the previous last header is replaced in the new chain.
+                let is_forked = new_last_headers.iter().any(|header| {
+                    header.number() == prev_last_header_number
+                        && header.hash() != prev_last_header_hash
+                });
                 // If previous last header is block#1, that means there are no previous last n
                 // headers, so we could NOT distinguish whether the block#1 is a fork block or not.
                 // For safety, just remove the block#1.
@@ -357,6 +387,25 @@ impl LightClientProtocol {
                     }
                     self.storage.rollback_to_block(1);
                     matched_blocks.clear();
+                } else if is_forked {
+                    let old_last_headers: HashMap<_, _> =
+                        self.storage.get_last_n_headers().into_iter().collect();
+                    let fork_number = new_last_headers
+                        .iter()
+                        .rev()
+                        .filter(|header| header.number() < prev_last_header_number)
+                        .find_map(|header| {
+                            old_last_headers
+                                .get(&header.number())
+                                .filter(|hash| &&header.hash() == hash)
+                                .map(|_| header.number())
+                        });
+                    if let Some(to_number) = fork_number {
+                        self.rollback_to_fork_number(to_number);
+                    } else {
+                        warn!("long fork detected");
+                        return Ok(false);
+                    }
                 }
             } else {
                 let old_last_headers: HashMap<_, _> =
@@ -375,23 +424,7 @@ impl LightClientProtocol {
                         .unwrap_or_default()
                 });
                 if let Some(to_number) = fork_number {
-                    debug!("fork to number: {}", to_number);
-                    let mut matched_blocks = self.peers.matched_blocks().write().expect("poisoned");
-                    let mut start_number_opt = None;
-                    while let Some((start_number, _, _)) = self.storage.get_latest_matched_blocks()
-                    {
-                        if start_number > to_number {
-                            debug!("remove matched blocks start from: {}", start_number);
-                            self.storage.remove_matched_blocks(start_number);
-                        } else {
-                            start_number_opt = Some(start_number);
-                            break;
-                        }
-                    }
-                    let rollback_to = start_number_opt.unwrap_or(to_number) + 1;
-                    info!("rollback to block#{}", rollback_to);
-                    self.storage.rollback_to_block(rollback_to);
-                    matched_blocks.clear();
+                    self.rollback_to_fork_number(to_number);
                 } else {
                     warn!("long fork detected");
                     return Ok(false);
